@@ -157,9 +157,55 @@ impl TryFrom<&Value> for f64 {
                 Ok(f64::try_from(&Value::Text(s))?)
             }
             Value::Number(v) => Ok(*v),
-            Value::Text(v) => Ok(v.parse::<f64>().unwrap_or(f64::NAN)),
+            Value::Text(v) => Ok(xpath_number(v)),
         }
     }
+}
+
+fn is_xml_space(c: char) -> bool {
+    c == ' ' || c == '\t' || c == '\n' || c == '\r'
+}
+
+/// XPath 1.0 4.4: optional white space, an optional minus sign, a Number
+/// (`Digits ('.' Digits?)? | '.' Digits`), optional white space; any other string is NaN
+/// (no exponent, no plus sign, no "inf": `str::parse::<f64>` alone accepts all of these).
+fn xpath_number(v: &str) -> f64 {
+    let cs: Vec<char> = v.chars().collect();
+    let mut start = 0;
+    while start < cs.len() && is_xml_space(cs[start]) {
+        start += 1;
+    }
+    let mut end = cs.len();
+    while end > start && is_xml_space(cs[end - 1]) {
+        end -= 1;
+    }
+
+    let mut i = start;
+    if i < end && cs[i] == '-' {
+        i += 1;
+    }
+    let mut int_digits = 0usize;
+    while i < end && cs[i].is_ascii_digit() {
+        i += 1;
+        int_digits += 1;
+    }
+    let mut frac_digits = 0usize;
+    if i < end && cs[i] == '.' {
+        i += 1;
+        while i < end && cs[i].is_ascii_digit() {
+            i += 1;
+            frac_digits += 1;
+        }
+    }
+    if i != end || int_digits + frac_digits == 0 {
+        return f64::NAN;
+    }
+
+    cs[start..end]
+        .iter()
+        .collect::<String>()
+        .parse::<f64>()
+        .unwrap_or(f64::NAN)
 }
 
 impl cmp::PartialEq<bool> for Value {
